@@ -12,6 +12,8 @@ use white_whale_std::pool_network::pair;
 pub const ACCTS: [&str; 6] = ["__pool__", "alice", "bob", "carol", "donor", OWNER];
 /// receiver index standing for the pool's own fee collector (a self-referential receiver; the model's swap does not depend on the receiver)
 pub const TO_COLLECTOR: usize = 99;
+/// the second fee collector address an UpdateConfig may name
+pub const COLLECTOR2: &str = "collector2";
 pub const MIN_LIQ: u128 = 1000;
 
 #[derive(Clone, Debug)]
@@ -20,7 +22,9 @@ pub enum POp {
     Withdraw { who: usize, a: u128 },
     Swap { who: usize, dir: bool, x: u128, belief: Option<u128>, max_spread: Option<u128>, to: Option<usize> },
     Collect { who: usize },
-    UpdateConfig { who: usize, new_owner: Option<usize>, new_fees: Option<(u128, u128, u128)>, toggles: Option<(bool, bool, bool)> },
+    /// `coll`: the message also names a fee collector (false = the original one, true = a second address). The model has no collector
+    /// identity: `col` observed = what the two collector addresses together received from the pool.
+    UpdateConfig { who: usize, new_owner: Option<usize>, new_fees: Option<(u128, u128, u128)>, toggles: Option<(bool, bool, bool)>, coll: Option<bool> },
     Donate { i: bool, z: u128 },
     TransferLp { from: usize, to: usize, a: u128 },
     /// ExecuteMsg::WithdrawLiquidity {} with `a` of DENOMS[denom] attached (token-factory LP entry point)
@@ -43,7 +47,7 @@ impl POp {
             POp::Swap { who, dir, x, belief, max_spread, to } =>
                 format!("Swap {}%nat {} {} {} {} {}", who, coqbool(*dir), x, optz(belief), optz(max_spread), optn(to)),
             POp::Collect { who } => format!("Collect {}%nat", who),
-            POp::UpdateConfig { who, new_owner, new_fees, toggles } => format!("UpdateConfig {}%nat {} {} {}", who, optn(new_owner),
+            POp::UpdateConfig { who, new_owner, new_fees, toggles, .. } => format!("UpdateConfig {}%nat {} {} {}", who, optn(new_owner),
                 match new_fees { Some(f) => format!("(Some (mkFees {} {} {}))", f.0, f.1, f.2), None => "None".into() },
                 match toggles { Some(t) => format!("(Some ({}, {}, {}))", coqbool(t.0), coqbool(t.1), coqbool(t.2)), None => "None".into() }),
             POp::Donate { i, z } => format!("Donate {} {}", coqbool(*i), z),
@@ -96,7 +100,7 @@ pub fn snap(w: &PairWorld) -> Snap {
         pending: w.fees_query(false), alltime: w.fees_query(true), burned: w.burned_query(),
         supply: w.lp_supply(),
         lp: (0..ACCTS.len()).map(|i| w.lp_bal(who(i))).collect(),
-        col: [w.bal(0, COLLECTOR), w.bal(1, COLLECTOR)],
+        col: [w.bal(0, COLLECTOR) + w.bal(0, COLLECTOR2), w.bal(1, COLLECTOR) + w.bal(1, COLLECTOR2)],
         users: (1..ACCTS.len()).map(|i| [w.bal(0, ACCTS[i]), w.bal(1, ACCTS[i])]).collect(),
     }
 }
@@ -133,9 +137,9 @@ pub fn exec(w: &mut PairWorld, op: &POp) -> Outcome<AppResponse> {
         POp::Withdraw { who, a } => w.withdraw(ACCTS[*who], *a),
         POp::Swap { who, dir, x, belief, max_spread, to } => { let t = to.map(|r| name(r, w)); w.swap(ACCTS[*who], *dir as usize, *x, d(belief), d(max_spread), t) }
         POp::Collect { who } => w.collect(ACCTS[*who]),
-        POp::UpdateConfig { who, new_owner, new_fees, toggles } => {
+        POp::UpdateConfig { who, new_owner, new_fees, toggles, coll } => {
             let msg = pair::ExecuteMsg::UpdateConfig {
-                owner: new_owner.map(|o| name(o, w)), fee_collector_addr: None,
+                owner: new_owner.map(|o| name(o, w)), fee_collector_addr: coll.map(|c| if c { COLLECTOR2.to_string() } else { COLLECTOR.to_string() }),
                 pool_fees: new_fees.map(|f| pool_fee(f.0, f.1, f.2)),
                 feature_toggle: toggles.map(|t| pair::FeatureToggle { withdrawals_enabled: t.0, deposits_enabled: t.1, swaps_enabled: t.2 }) };
             let pair = w.pair.clone();
@@ -360,7 +364,8 @@ pub fn run_case(out: &mut Out, prop: &str, case: &PairCase) -> Option<CaseResult
                 }
                 if prev.res[0] > 0 && prev.res[1] > 0 { res.had_remainder = true; }
                 if let POp::UpdateConfig { new_fees: Some(f), .. } = op { fees = *f; }
-                if !matches!(op, POp::Provide { receiver: None, .. }) { if !matches!(op, POp::Withdraw { .. }) { last_provide = None; } }
+                // "immediate": the withdrawal is the very next successful operation after the deposit
+                if !matches!(op, POp::Provide { receiver: None, .. }) { last_provide = None; }
             }
             Outcome::Err(c) => {
                 obs.push("1".into()); obs.push(c.to_string());
@@ -439,7 +444,7 @@ pub fn gen_case(rng: &mut Rng, len: usize, bias: &Bias) -> PairCase {
             let new_owner = if rng.chance(1, 5) { Some(1 + rng.below(5) as usize) } else { None };
             let fv = !rng.chance(1, 6); let new_fees = if rng.chance(2, 3) { Some(fee_triple(rng, fv)) } else { None };
             let toggles = if bias.toggles || rng.chance(1, 4) { Some((rng.chance(3, 4), rng.chance(3, 4), rng.chance(3, 4))) } else { None };
-            POp::UpdateConfig { who: sender, new_owner, new_fees, toggles }
+            POp::UpdateConfig { who: sender, new_owner, new_fees, toggles, coll: if rng.chance(1, 3) { Some(rng.chance(1, 2)) } else { None } }
         } else if choice < 95 { POp::Donate { i: rng.chance(1, 2), z: magnitude(rng, 90) }
         } else if choice < 98 && rng.chance(3, 4) {
             // malformed entries (must be rejected and change nothing)
@@ -483,7 +488,7 @@ pub fn gen_case(rng: &mut Rng, len: usize, bias: &Bias) -> PairCase {
         ops.push(op);
     }
     let fab = !kinds[1] && rng.chance(1, 4);
-    let decs = *rng.pick(&[[6u8, 6u8], [6, 6], [6, 8], [18, 6], [8, 6], [6, 18]]);
+    let decs = *rng.pick(&[[6u8, 6u8], [6, 6], [6, 8], [18, 6], [8, 6], [6, 18], [24, 6], [6, 20]]);
     PairCase { kinds, fees, ops, fab, decs }
 }
 
@@ -555,9 +560,9 @@ impl PairCase {
             POp::Withdraw { who, a } => json!(["withdraw", who, a.to_string()]),
             POp::Swap { who, dir, x, belief, max_spread, to } => json!(["swap", who, dir, x.to_string(), os(belief), os(max_spread), ou(to)]),
             POp::Collect { who } => json!(["collect", who]),
-            POp::UpdateConfig { who, new_owner, new_fees, toggles } => json!(["update_config", who, ou(new_owner),
+            POp::UpdateConfig { who, new_owner, new_fees, toggles, coll } => json!(["update_config", who, ou(new_owner),
                 match new_fees { Some(f) => json!([f.0.to_string(), f.1.to_string(), f.2.to_string()]), None => serde_json::Value::Null },
-                match toggles { Some(t) => json!([t.0, t.1, t.2]), None => serde_json::Value::Null }]),
+                match toggles { Some(t) => json!([t.0, t.1, t.2]), None => serde_json::Value::Null }, coll]),
             POp::Donate { i, z } => json!(["donate", i, z.to_string()]),
             POp::TransferLp { from, to, a } => json!(["transfer_lp", from, to, a.to_string()]),
             POp::WithdrawDirect { who, denom, a } => json!(["withdraw_direct", who, denom, a.to_string()]),
@@ -581,7 +586,8 @@ impl PairCase {
                 "collect" => POp::Collect { who: u(1)? },
                 "update_config" => POp::UpdateConfig { who: u(1)?, new_owner: pou(&o[2])?,
                     new_fees: if o[3].is_null() { None } else { Some((ps(&o[3][0])?, ps(&o[3][1])?, ps(&o[3][2])?)) },
-                    toggles: if o[4].is_null() { None } else { Some((o[4][0].as_bool()?, o[4][1].as_bool()?, o[4][2].as_bool()?)) } },
+                    toggles: if o[4].is_null() { None } else { Some((o[4][0].as_bool()?, o[4][1].as_bool()?, o[4][2].as_bool()?)) },
+                    coll: o.get(5).and_then(|v| v.as_bool()) },
                 "donate" => POp::Donate { i: o[1].as_bool()?, z: ps(&o[2])? },
                 "transfer_lp" => POp::TransferLp { from: u(1)?, to: u(2)?, a: ps(&o[3])? },
                 "withdraw_direct" => POp::WithdrawDirect { who: u(1)?, denom: u(2)?, a: ps(&o[3])? },
